@@ -657,7 +657,7 @@ def _pop_step1(ex, x, k):
                 snoc(rp(StrList.box(L), k), L.arr[L.len - 1 - k]))
 
 
-c.loop(('selector_components', 'nodes.append'),
+c.loop(('selector_components', None),
        [Clause('nodes_are_the_dicts_along_the_path_of_the_name', _pop_inv1)],
        before=_pop_before1, body_start=_pop_step1)
 
